@@ -38,6 +38,27 @@ fn unparen(mut v: &Value) -> &Value {
     v
 }
 
+/// Is there a call of the `defineComponent` binding imported by name from "vue" (callee possibly
+/// in parentheses) anywhere in the tree?
+pub fn has_define_component_call(v: &Value, dc_ctxt: Option<u64>) -> bool {
+    if dc_ctxt.is_none() {
+        return false;
+    }
+    match v {
+        Value::Object(o) => {
+            if ty(v) == "CallExpression" {
+                let callee = unparen(&v["callee"]);
+                if ident_name(callee) == Some("defineComponent") && callee["ctxt"].as_u64() == dc_ctxt {
+                    return true;
+                }
+            }
+            o.values().any(|x| has_define_component_call(x, dc_ctxt))
+        }
+        Value::Array(a) => a.iter().any(|x| has_define_component_call(x, dc_ctxt)),
+        _ => false,
+    }
+}
+
 /// An output item that the transform is allowed to add to a statement list.
 fn allowed_generated(item: &Value) -> bool {
     match ty(item) {
